@@ -120,6 +120,9 @@ void vs_register_stack(const void* lo, size_t len);
 void* vs_alloc_far(size_t n);
 // tolerate accesses to freed (never reused, still intact) memory: for harness classes where the CALLER keeps using a dead handle
 void vs_heap_allow_freed(int on);
+// single-writer fields: the first virtual thread that writes [p, p+n) after this call owns it; a write by any other
+// virtual thread is a violation (owner_only_write)
+void vs_owner_only(const void* p, size_t n, const char* what);
 // while on (per virtual thread): an 8-byte READ of freed heap memory is recorded (pc) and execution goes on
 void vs_tolerate_freed_read8(int on);
 void vs_install_crash_handlers(void);
